@@ -45,20 +45,23 @@ hz_harness!(hz_equiv_inv_cipher_round, 33, 40, |inp| {
     Some(b.0 == ra::xor(&ra::inv_round_core(&blk), &key))
 });
 
-//@ harness name=hz_mix_columns prop=C17,C03 tier=quick bits=129 stub=1 est=100 variants=aes:ni+hazmat desc="hazmat::mix_columns == FIPS-197 MixColumns (the NI arm computes it as three AESIMC), hazmat::inv_mix_columns == InvMixColumns, and they are mutual inverses; all 2^128 blocks, either dispatch arm"
+// mix_columns / inv_mix_columns: one query each vs the oracle; "mutual inverses" then follows from the oracle lemma
+// c02_ni::fips_mc_inverse (InvMixColumns(MixColumns(c)) == c == MixColumns(InvMixColumns(c)) for every column).
+//@ harness name=hz_mix_columns prop=C17,C03 tier=quick bits=129 stub=1 est=100 variants=aes:ni+hazmat desc="hazmat::mix_columns == FIPS-197 MixColumns for all 2^128 blocks on either dispatch arm (the NI arm computes it as three AESIMC; CPUID symbolic)"
 hz_harness!(hz_mix_columns, 17, 40, |inp| {
     ni_model::set_cpu(inp[16] & 1 == 1);
     let blk: [u8; 16] = take(inp, 0);
     let mut b = blk.into();
     hazmat::mix_columns(&mut b);
-    vcheck!(b.0 == ra::mix_columns(&blk));
+    Some(b.0 == ra::mix_columns(&blk))
+});
+//@ harness name=hz_inv_mix_columns prop=C17,C03 tier=quick bits=129 stub=1 est=100 variants=aes:ni+hazmat desc="hazmat::inv_mix_columns == FIPS-197 InvMixColumns for all 2^128 blocks on either dispatch arm (CPUID symbolic)"
+hz_harness!(hz_inv_mix_columns, 17, 40, |inp| {
+    ni_model::set_cpu(inp[16] & 1 == 1);
+    let blk: [u8; 16] = take(inp, 0);
+    let mut b = blk.into();
     hazmat::inv_mix_columns(&mut b);
-    vcheck!(b.0 == blk);
-    let mut c = blk.into();
-    hazmat::inv_mix_columns(&mut c);
-    vcheck!(c.0 == ra::inv_mix_columns(&blk));
-    hazmat::mix_columns(&mut c);
-    Some(c.0 == blk)
+    Some(b.0 == ra::inv_mix_columns(&blk))
 });
 
 //@ harness name=hz_cipher_round_par_ni prop=C17,C04 tier=quick bits=2048 stub=1 est=120 variants=aes:ni+hazmat desc="hazmat::cipher_round_par on 8 arbitrary blocks with 8 arbitrary round keys == eight independent cipher_round calls with the respective keys (intrinsics arm)"
